@@ -10,7 +10,7 @@ func genC20(o *Out) {
 	_ = o.pinFile("isaac/database/perm_base.go", "basePermanent.LastSuffrageProofBytes", "basePermanent.LastBlockMapBytes", "basePermanent.LastSuffrageProof", "basePermanent.LastBlockMap")
 	g := o.pinFile("isaac/database/leveldb.go", "baseLeveldb.loadLastBlockMap", "baseLeveldb.loadNetworkPolicy")
 	ct := o.pinFile("isaac/database/center.go", "Center.load", "loadTemps", "loadTemp", "Center.RemoveBlocks", "Center.removeTemp", "Center.cleanRemoved")
-	_ = o.pinFile("isaac/database/block_write.go", "removeHigherHeights", "LeveldbBlockWrite.setState", "LeveldbBlockWrite.isLastStates", "LeveldbBlockWrite.updateLockedStates")
+	bw := o.pinFile("isaac/database/block_write.go", "removeHigherHeights", "LeveldbBlockWrite.setState", "LeveldbBlockWrite.isLastStates", "LeveldbBlockWrite.updateLockedStates")
 	// what a merge into the permanent database copies (the model's mergePerm moves a whole block): verified against the
 	// chain model under C19 / C21, pinned here
 	_ = o.pinFile("isaac/database/perm_leveldb.go", "LeveldbPermanent.mergeTempDatabaseFromLeveldb")
@@ -52,4 +52,40 @@ func genC20(o *Out) {
 			(strings.Contains(src, "meta, body, err = ReadOneHeaderFrame(b)") || strings.Contains(src, ", body, err = ReadOneHeaderFrame(b)"))
 	}
 	o.boolean("proofLoaderKeepsBody", pf)
+	// the block writer: which state of a key it writes and which it keeps in memory (Model/WriterStates.lean)
+	if bw != nil {
+		src := func(recv, name string) string {
+			fd := bw.Func(recv, name)
+			if fd == nil {
+				o.errf("%s.%s not found", recv, name)
+				return ""
+			}
+			return normSpace(bw.Src(fd.Body))
+		}
+		il, ul, ss := src("LeveldbBlockWrite", "isLastStates"), src("LeveldbBlockWrite", "updateLockedStates"), src("LeveldbBlockWrite", "setState")
+		disk, diskOK := false, true
+		switch {
+		case strings.Contains(il, "if found && st.Height() <= i { return base.NilHeight, errors.Errorf(\"old\") }"):
+			disk = true
+		case strings.Contains(il, "if found && st.Height() < i { return base.NilHeight, errors.Errorf(\"old\") }"):
+		default:
+			diskOK = false
+		}
+		mem, memOK := false, true
+		switch {
+		case strings.Contains(ul, "if i != nil && st.Height() <= i.Height() { return i, nil }"):
+			mem = true
+		case strings.Contains(ul, "if i != nil && st.Height() < i.Height() { return i, nil }"):
+		default:
+			memOK = false
+		}
+		if !diskOK || !memOK {
+			o.errf("block writer: the comparison of isLastStates / updateLockedStates is not of a known form")
+		}
+		o.boolean("writerDiskKeepsFirst", disk)
+		o.boolean("writerMemKeepsFirst", mem)
+		// nothing is remembered that was not written: the guard comes first, the memory update and the record follow it
+		a, b, c := strings.Index(ss, "if !db.isLastStates(st) { return nil }"), strings.Index(ss, "db.updateLockedStates(st, db.sufst)"), strings.Index(ss, "db.batchAdd(leveldbStateKey(st.Key()), b)")
+		o.boolean("writerMemoryFollowsDisk", a >= 0 && a < b && b < c && strings.Contains(ss, "db.updateLockedStates(st, db.policy)"))
+	}
 }
